@@ -53,6 +53,9 @@ type ent struct {
 	weight uint64
 }
 
+// ValueHash is the hash of a value record (weight || value).
+func ValueHash(v []byte, w uint64) []byte { return valueHash(v, w) }
+
 func valueHash(v []byte, w uint64) []byte {
 	m := binary.BigEndian.AppendUint64(nil, w)
 	return H(append(m, v...))
